@@ -145,31 +145,69 @@ Proof. induction steps as [|s rest IH]; intros st H; [exact I|]. cbn [idle_ok] i
     destruct (step_logs s); [reflexivity|discriminate].
   - intros Hk. apply N.ltb_lt in Hk. rewrite Hk in H2. apply eqb_prop in H2. exact H2. Qed.
 
+(* ---------- exactly one closest ---------- *)
+(* the observed isClosest answers about (excluded peer, CID) given by trusted peers; the candidates: trusted members other
+   than the excluded one *)
+Definition group_of (trusted : N -> bool) (cs : list cobs) (excl : option N) (c : N) : list cobs :=
+  filter (fun o' : cobs => let '(s', excl', c', _) := o' in trusted s' && optN_eqb excl excl' && (c =? c')%N) cs.
+Definition cands_of (trusted : N -> bool) (members : list N) (excl : option N) : list N :=
+  filter (fun p => trusted p && negb (match excl with Some x => (p =? x)%N | None => false end)) members.
+(* for every (excluded peer, CID) about which as many trusted answers were recorded as there are trusted candidates (every
+   trusted candidate was asked) and there is a candidate at all: exactly one of those answers is "closest" *)
+Definition one_closest_spec (members : list N) (trusted : N -> bool) (cs : list cobs) : Prop :=
+  forall self excl c b, In (self, excl, c, b) cs ->
+    length (group_of trusted cs excl c) = length (cands_of trusted members excl) -> cands_of trusted members excl <> [] ->
+    exists l1 o l2, group_of trusted cs excl c = l1 ++ o :: l2 /\ snd o = true /\ forall o', In o' (l1 ++ l2) -> snd o' = false.
+
+Lemma filter_one {A} (g : A -> bool) l : length (filter g l) = 1%nat ->
+  exists l1 x l2, l = l1 ++ x :: l2 /\ g x = true /\ forall y, In y (l1 ++ l2) -> g y = false.
+Proof. induction l as [|a r IH]; [discriminate|]. cbn [filter]. destruct (g a) eqn:Ga.
+  - cbn [length]. intros H. injection H as H. exists [], a, r. split; [reflexivity|]. split; [exact Ga|].
+    intros y Hy. cbn [app] in Hy. destruct (g y) eqn:Gy; [|reflexivity]. exfalso.
+    assert (In y (filter g r)) as Hin by (apply filter_In; auto). destruct (filter g r); [destruct Hin|discriminate].
+  - intros H. destruct (IH H) as [l1 [x [l2 [E [Gx Hall]]]]]. exists (a :: l1), x, l2. split; [now rewrite E|]. split; [exact Gx|].
+    intros y [<-|Hy]; auto. Qed.
+
+Theorem one_closest_ok_sound members trusted cs : one_closest_ok members trusted cs = true -> one_closest_spec members trusted cs.
+Proof. unfold one_closest_ok. rewrite forallb_forall. intros H self excl c b Hin Hlen Hne. specialize (H _ Hin). cbv beta iota zeta in H.
+  match type of H with (if negb (Nat.eqb (length ?g) (length ?cd)) then _ else _) = true =>
+    change g with (group_of trusted cs excl c) in H; change cd with (cands_of trusted members excl) in H end.
+  match type of H with (if negb ?t then _ else _) = true => assert (Et : t = true) by (apply Nat.eqb_eq; exact Hlen); rewrite Et in H end.
+  cbn [negb] in H. destruct (cands_of trusted members excl) as [|p0 ps]; [congruence|].
+  apply Nat.eqb_eq in H. exact (filter_one _ _ H). Qed.
+
 (* ---------- a whole harness case ---------- *)
 (* the spec part of check_case (code 2), named *)
 Definition trusted_of (untrusted : list N) : N -> bool := fun p => negb (memN p untrusted).
-Definition all_eligible_of (kind f : N) (members : list N) (all_trusted : bool) (steps : list astep) : bool :=
-  negb (match steps with [] => true | _ => false end)
-  && forallb (fun s => negb (step_fol s) && negb ((kind <? 3)%N && step_norep s)) steps
-  && negb (kind =? 1)%N && all_trusted
+Definition idle_step (kind : N) (s : astep) : bool := step_fol s || ((kind <? 3)%N && step_norep s).
+(* the members trust each other, or the untrusted ones took no part (ran as followers / with re-pinning disabled) *)
+Definition all_trusted_of (kind : N) (members untrusted : list N) (steps : list astep) : bool :=
+  forallb (trusted_of untrusted) members || forallb (fun s => trusted_of untrusted (step_self s) || idle_step kind s) steps.
+Definition trusted_steps (untrusted : list N) (steps : list astep) : list astep :=
+  filter (fun s => trusted_of untrusted (step_self s)) steps.
+(* every trusted candidate peer ran, none of them idle, a ping alert / removal / sweep *)
+Definition all_eligible_of (kind f : N) (members untrusted : list N) (steps : list astep) : bool :=
+  negb (match trusted_steps untrusted steps with [] => true | _ => false end)
+  && forallb (fun s => negb (idle_step kind s)) (trusted_steps untrusted steps)
+  && negb (kind =? 1)%N && all_trusted_of kind members untrusted steps
   && (if (kind =? 2)%N then true
-      else seteqb (map (fun s => fst (fst (fst (fst (fst s))))) steps)
-                  (filter (fun p => negb ((kind <? 2)%N && (p =? f)%N)) members)).
+      else seteqb (map step_self (trusted_steps untrusted steps))
+                  (filter (fun p => trusted_of untrusted p && negb ((kind <? 2)%N && (p =? f)%N)) members)).
 
 Record scenario_spec (rv : bool) (members untrusted : list N) (ms : list metric) (ls : list (N * list N))
        (st0 : pinset) (kind f : N) (steps : list astep) (cs : list cobs) : Prop := {
   ss_one_entry : NoDup (akeys (final_state st0 steps));
   ss_idle : idle_spec kind st0 steps;
-  ss_closest : one_closest_ok members (forallb (trusted_of untrusted) members) cs = true;
+  ss_closest : one_closest_spec members (trusted_of untrusted) cs;
   (* nothing is removed (nor added) by re-pinning; an expiry sweep adds nothing *)
   ss_keys : ((kind < 3)%N -> forall h, In h (akeys st0) <-> In h (akeys (final_state st0 steps))) /\
             (~ (kind < 3)%N -> incl (akeys (final_state st0 steps)) (akeys st0));
   ss_repin : (kind < 3)%N -> forall c x, In (c, x) st0 ->
-      repin_clause 0 rv ms (forallb (trusted_of untrusted) members)
-        (all_eligible_of kind f members (forallb (trusted_of untrusted) members) steps) f st0 (final_state st0 steps) steps c x;
+      repin_clause 0 rv ms (all_trusted_of kind members untrusted steps)
+        (all_eligible_of kind f members untrusted steps) f st0 (final_state st0 steps) steps c x;
   ss_sync : ~ (kind < 3)%N -> forall c x, In (c, x) st0 ->
-      sync_clause 0 ls (forallb (trusted_of untrusted) members)
-        (all_eligible_of kind f members (forallb (trusted_of untrusted) members) steps) st0 (final_state st0 steps) steps c x
+      sync_clause 0 ls (all_trusted_of kind members untrusted steps)
+        (all_eligible_of kind f members untrusted steps) st0 (final_state st0 steps) steps c x
 }.
 
 Theorem check_case_sound_l id dmin dmax rv hpt hct members untrusted ms ls st0l kind f steps cs :
@@ -178,19 +216,23 @@ Theorem check_case_sound_l id dmin dmax rv hpt hct members untrusted ms ls st0l 
      (check_case (id, (dmin, dmax, rv, hpt, hct, members, untrusted, ms, ls, st0l, (kind, f, steps), cs)))) ->
   scenario_spec rv members untrusted ms ls (of_list st0l) kind f steps cs.
 Proof. intros Hms H. cbn [check_case] in H. cbv zeta in H.
-  fold (trusted_of untrusted) in H. set (at_ := forallb (trusted_of untrusted) members) in *.
-  fold (all_eligible_of kind f members at_ steps) in H. set (ae := all_eligible_of kind f members at_ steps) in *.
+  fold (trusted_of untrusted) in H. fold (idle_step kind) in H.
+  fold (all_trusted_of kind members untrusted steps) in H. set (at_ := all_trusted_of kind members untrusted steps) in *.
+  fold (trusted_steps untrusted steps) in H. fold (all_eligible_of kind f members untrusted steps) in H.
+  set (ae := all_eligible_of kind f members untrusted steps) in *.
   set (st0 := of_list st0l) in *. set (stF := final_state st0 steps) in *.
   match type of H with forall t, ~ In _ (_ ++ (if ?g && ?b then [] else _)) => assert (G : g && b = true) end.
   { match goal with |- ?g && ?b = true => destruct (g && b) eqn:E; auto end.
     exfalso. eapply H. apply in_or_app. right. left. reflexivity. }
   clear H. rewrite !andb_true_iff in G. destruct G as [[[[G1 G2] G3] G4] G5].
   assert (Bad : (if (kind <? 3)%N then repin_bad 0 rv ms at_ ae f st0 stF steps else sync_bad 0 ls at_ ae st0 stF steps) = []).
-  { match type of G5 with match ?b with [] => _ | _ => _ end = true => destruct b; [reflexivity|discriminate] end. }
+  { change (match (if (kind <? 3)%N then repin_bad 0 rv ms at_ ae f st0 stF steps else sync_bad 0 ls at_ ae st0 stF steps) with
+            [] => true | _ => false end = true) in G5.
+    destruct (if (kind <? 3)%N then repin_bad 0 rv ms at_ ae f st0 stF steps else sync_bad 0 ls at_ ae st0 stF steps); [reflexivity|discriminate]. }
   constructor.
   - now apply nodupb_NoDup.
   - now apply idle_ok_sound.
-  - exact G3.
+  - now apply one_closest_ok_sound.
   - split; intros Hk.
     + apply N.ltb_lt in Hk. rewrite Hk in G4. now apply same_keys_sound.
     + apply N.ltb_nlt in Hk. rewrite Hk in G4. now apply subsetb_incl.
